@@ -306,6 +306,10 @@ def bad_payload_states_job(noise: bool) -> dict[str, Any]:
                 w.do_handshake()
                 if not state.startswith("finish-pending"):
                     w.do_hello()
+                if not state.startswith("finish-pending"):
+                    # a request that is waiting when the bad payload arrives learns why the connection closed
+                    w.spawn("req", lambda: w.conn.send_message_await_response(mk("DeviceInfoRequest"), env.pb().DeviceInfoResponse, 50.0))
+                    w.drain()
                 if "disconnect" in state:
                     w.spawn("disc", w.conn.disconnect)
                     w.drain()
@@ -339,6 +343,9 @@ def bad_payload_states_job(noise: bool) -> dict[str, Any]:
                 if w.conn.connection_state.name != "CLOSED":
                     out["viol"].append({"key": key, "clause": f"C12:bad-payload:an undecodable SensorStateResponse arrived in state '{state}' (after: {lead or 'nothing'}) "
                                         f"but the connection reads {w.conn.connection_state.name}, finish={w.outcome('finish')}", **d})
+                elif "req" in w.tasks and not (w.results.get("req") and w.results["req"][0] == "exc" and isinstance(w.results["req"][1], ProtocolAPIError)):
+                    out["viol"].append({"key": key + ":waiter", "clause": f"C12:bad-payload:closed with a protocol error, but the request that was waiting in state "
+                                        f"'{state}' ended {w.outcome('req')}", **d})
                 elif fatal and not any(isinstance(e, ProtocolAPIError) for e in fatal[:1]) and not state.endswith("gave-up"):
                     out["viol"].append({"key": key + ":class", "clause": f"C12:bad-payload:closed, but the fatal error reported first is {type(fatal[0]).__name__}, "
                                         "not a protocol error", **d})
